@@ -138,7 +138,13 @@ pub fn check(case: &Case) -> Outcome {
     let mut any = false;
     let mut also: Vec<String> = Vec::new();
     for (ci, c) in case.corrs.iter().enumerate() {
-        let delta = prf_felt(inst.pseed ^ 0xC07, ci as u64 + 1);
+        // PRF delta, or (for Merkle nodes) one that only touches bits above the masked-hash width
+        let delta = match (c.kind, c.b % 4) {
+            (3, 0) | (4, 0) => Felt::TWO.pow(160u128),
+            (3, 1) | (4, 1) => Felt::TWO.pow(248u128),
+            (3, 2) | (4, 2) => Felt::TWO.pow(250u128) + Felt::TWO.pow(161u128),
+            _ => prf_felt(inst.pseed ^ 0xC07, ci as u64 + 1),
+        };
         let mut us = unsent(&fi);
         let mut cfg2 = cfg.clone();
         let mut dec = Decommitment { values: open.values.clone(), points: open.points.clone() };
